@@ -9,7 +9,8 @@ argument arrives.  Moving the last positional argument of a call to its keyword 
 * hence moves its laziness flag from the positional to the keyword part of the lazy signature
   (`lazySig_kw_move`),
 * and, when that parameter is lazy, leaves the evaluation log and the bound vector - the whole
-  outcome of the resolution - unchanged (`lazy_spelling_invariant`).
+  outcome of the resolution - unchanged (`lazy_spelling_invariant` for one definition,
+  `lazy_spelling_invariant_family` for a family of overloads that all own the slot that way).
 -/
 namespace Yaql.Props.C11Spell
 open Yaql.Types Yaql.Resolve Yaql.Registry Yaql.Props.C05 Yaql.Props.C12 Yaql.Props.C11
@@ -743,6 +744,380 @@ example :
       { receiver := none, args := [tick 1, tick 2], kwargs := [(['v', 'S'], tick 3)] }).log = [1, 2, 3] ∧
     (chooseOverload lat [[toDictE]]
       { receiver := none, args := [tick 1], kwargs := [(['v', 'S'], tick 3), (['k', 'S'], tick 2)] }).log = [1, 3, 2] := by
+  decide
+
+end Ex
+
+/-! ## a whole family of overloads
+
+If EVERY visible candidate owns the moved slot with a lazy parameter passed under the same keyword name,
+the call with the last positional argument moved to that keyword has the same outcome
+(`lazy_spelling_invariant_family`; through `C05.chooseOverload_eq`, the declarative form of the resolver).
+Without the condition on every candidate the statement is false in the model and in the real code:
+`map_args` does not type-check keywords taken by named parameters, so a candidate that is dropped in the
+positional spelling can stay in the keyword spelling with another lazy signature (`C12`, notes). -/
+
+/-- what makes the move legal for one definition: the slot behind `args'` is owned by a LAZY parameter
+    that is passed under the name `n`, no other parameter owns the slot or the name, and the argument
+    passes that parameter's `check` -/
+def MoveOk (L : Lattice) (args' : List Arg) (a : Arg) (n : Name) (f : FDef) : Prop :=
+  ∃ p pre post, f.params = pre ++ p :: post ∧ p.argName = n ∧ slotOf f.params p = some args'.length ∧
+    args'.length < visCount f.params ∧
+    (∀ p' ∈ pre ++ post, slotOf f.params p' ≠ some args'.length ∧ NameOther n p') ∧
+    p.ty.isLazy = true ∧ check L p.ty a = true
+
+/-- for a definition whose table passed `movesOk` (`C12Gen.registry_moves_ok`: every definition of the live
+    registry) the conditions on the other parameters need not be supplied -/
+theorem MoveOk.of_table {L : Lattice} {args' : List Arg} {a : Arg} {f : FDef} {p : Param} {i : Nat}
+    (hok : movesOk f.params = true) (hi : f.params[i]? = some p) (hslot : slotOf f.params p = some args'.length)
+    (hlazy : p.ty.isLazy = true) (hchk : check L p.ty a = true) : MoveOk L args' a p.argName f := by
+  obtain ⟨hps, hs, hothers⟩ := movesOk_spec hok hi hslot
+  exact ⟨p, _, _, hps, rfl, hslot, hs, hothers, hlazy, hchk⟩
+
+/-- the mapping of the keyword spelling, whatever the parameter in the last slot is -/
+def moveKwG (n : Name) (m : Mapping) : Mapping :=
+  match m.pos.getLast? with
+  | some p => moveKw n p m
+  | none => m
+
+def mvCand (n : Name) (c : Cand) : Cand := ⟨c.fd, moveKwG n c.mapping⟩
+def mvMatch (n : Name) (m : Match) : Match := ⟨mvCand n m.cand, m.bound⟩
+def mvSig (s : LazySig) : LazySig := ⟨s.pos.dropLast, s.kw ++ [true]⟩
+
+/-- what the later stages need to know about a mapped candidate of the positional spelling -/
+structure Good (L : Lattice) (args' : List Arg) (a : Arg) (kw : KwArgs) (n : Name) (c : Cand) : Prop where
+  last : ∃ pos0 p, c.mapping.pos = pos0 ++ [p] ∧ pos0.length = args'.length ∧ p.ty.isLazy = true
+  klen : c.mapping.kwd.length = kw.length
+  deleg : ∀ (E : List Arg) (K : KwArgs), E.length = args'.length → ahas n K = false →
+    getDelegate L c.fd.params E (K ++ [(n, a)]) = getDelegate L c.fd.params (E ++ [a]) K
+
+variable {L : Lattice} {args' : List Arg} {a : Arg} {kw : KwArgs} {n : Name}
+
+theorem good_of_mapped (ha : a.isNoValue = false) {f : FDef} (hf : MoveOk L args' a n f) {m : Mapping}
+    (hm : mapArgs L f.params (args' ++ [a]) kw = some m) (hkw : ahas n kw = false) :
+    Good L args' a kw n ⟨f, m⟩ ∧ mapArgs L f.params args' (kw ++ [(n, a)]) = some (moveKwG n m) := by
+  obtain ⟨p, pre, post, hps, hn, hslot, hs, hothers, hlazy, hchk⟩ := hf
+  subst hn
+  obtain ⟨hmove, hlast⟩ := mapArgs_kw_move L f.params args' a kw p pre post hps hslot hothers ha hkw hchk
+  obtain ⟨pos0, hpos, hlen⟩ := hlast m hm
+  refine ⟨⟨⟨pos0, p, hpos, hlen, hlazy⟩, ?_, ?_⟩, ?_⟩
+  · have := congrArg List.length (mapArgs_kwd_keys L f.params _ kw m hm)
+    simpa using this
+  · intro E K hE hK
+    exact spelling_kw_move L f.params (E ++ [a]) E K p pre post args'.length a hps hslot hs hothers
+      (by rw [← hE]; exact given_append_self _ a ha) (by rw [← hE]; simp) hK
+      (by rw [← hE]; exact slotFreed_dropLast _ a)
+  · rw [hmove, hm]
+    simp [moveKwG, hpos]
+
+theorem mappedOf_move (ha : a.isNoValue = false) (hkw : ahas n kw = false) :
+    ∀ (lv : List FDef), (∀ f ∈ lv, MoveOk L args' a n f) →
+      mappedOf L args' (kw ++ [(n, a)]) lv = (mappedOf L (args' ++ [a]) kw lv).map (mvCand n) ∧
+      ∀ c ∈ mappedOf L (args' ++ [a]) kw lv, Good L args' a kw n c
+  | [], _ => by simp [mappedOf]
+  | f :: r, h => by
+      obtain ⟨ih1, ih2⟩ := mappedOf_move ha hkw r (fun f' hf' => h f' (by simp [hf']))
+      have hf := h f (by simp)
+      cases hm : mapArgs L f.params (args' ++ [a]) kw with
+      | none =>
+          obtain ⟨p, pre, post, hps, hn, hslot, hs, hothers, hlazy, hchk⟩ := hf
+          subst hn
+          have hmove := (mapArgs_kw_move L f.params args' a kw p pre post hps hslot hothers ha hkw hchk).1
+          rw [hm] at hmove
+          have e1 : mappedOf L (args' ++ [a]) kw (f :: r) = mappedOf L (args' ++ [a]) kw r := by
+            simp [mappedOf, hm]
+          have e2 : mappedOf L args' (kw ++ [(p.argName, a)]) (f :: r) = mappedOf L args' (kw ++ [(p.argName, a)]) r := by
+            simp only [mappedOf, List.filterMap_cons, hmove, Option.map_none]
+          rw [e1, e2]
+          exact ⟨ih1, ih2⟩
+      | some m =>
+          obtain ⟨hg, hm'⟩ := good_of_mapped ha hf hm hkw
+          have e1 : mappedOf L (args' ++ [a]) kw (f :: r) = ⟨f, m⟩ :: mappedOf L (args' ++ [a]) kw r := by
+            simp [mappedOf, hm]
+          have e2 : mappedOf L args' (kw ++ [(n, a)]) (f :: r) =
+              ⟨f, moveKwG n m⟩ :: mappedOf L args' (kw ++ [(n, a)]) r := by
+            simp [mappedOf, hm']
+          rw [e1, e2, ih1]
+          refine ⟨by simp [mvCand], ?_⟩
+          intro c hc
+          rcases List.mem_cons.1 hc with rfl | hc'
+          · exact hg
+          · exact ih2 c hc'
+
+/-! ### laziness signatures -/
+
+theorem Good.sig_pos {c : Cand} (hg : Good L args' a kw n c) :
+    ∃ lz0, c.sig.pos = lz0 ++ [true] ∧ lz0.length = args'.length := by
+  obtain ⟨pos0, p, hpos, hlen, hlazy⟩ := hg.last
+  exact ⟨pos0.map (·.ty.isLazy), by simp [Cand.sig, Mapping.lazySig, hpos, hlazy], by simpa using hlen⟩
+
+theorem Good.sig_kw {c : Cand} (hg : Good L args' a kw n c) : c.sig.kw.length = kw.length := by
+  simpa [Cand.sig, Mapping.lazySig] using hg.klen
+
+theorem Good.sig_move {c : Cand} (hg : Good L args' a kw n c) : (mvCand n c).sig = mvSig c.sig := by
+  obtain ⟨pos0, p, hpos, hlen, hlazy⟩ := hg.last
+  simp [mvCand, moveKwG, Cand.sig, Mapping.lazySig, mvSig, moveKw, hpos, hlazy]
+
+theorem mvSig_inj {c1 c2 : Cand} (h1 : Good L args' a kw n c1) (h2 : Good L args' a kw n c2) :
+    (mvSig c1.sig = mvSig c2.sig) ↔ (c1.sig = c2.sig) := by
+  obtain ⟨l1, e1, _⟩ := h1.sig_pos
+  obtain ⟨l2, e2, _⟩ := h2.sig_pos
+  constructor
+  · intro h
+    simp only [mvSig, e1, e2, List.dropLast_concat, LazySig.mk.injEq] at h
+    have hk : c1.sig.kw = c2.sig.kw := List.append_cancel_right h.2
+    have hp : c1.sig.pos = c2.sig.pos := by rw [e1, e2, h.1]
+    cases hc1 : c1.sig; cases hc2 : c2.sig
+    simp_all
+  · intro h; rw [h]
+
+/-! ### the matches -/
+
+theorem matchesOf_move (E : List Arg) (K : KwArgs) (hE : E.length = args'.length) (hK : ahas n K = false) :
+    ∀ (cs : List Cand), (∀ c ∈ cs, Good L args' a kw n c) →
+      matchesOf L E (K ++ [(n, a)]) (cs.map (mvCand n)) = (matchesOf L (E ++ [a]) K cs).map (mvMatch n)
+  | [], _ => rfl
+  | c :: r, h => by
+      have ih := matchesOf_move E K hE hK r (fun c' hc' => h c' (by simp [hc']))
+      have hd := (h c (by simp)).deleg E K hE hK
+      simp only [matchesOf, List.map_cons, List.filterMap_cons] at ih ⊢
+      have hfd : (mvCand n c).fd = c.fd := rfl
+      rw [hfd, hd]
+      cases getDelegate L c.fd.params (E ++ [a]) K with
+      | none => simpa using ih
+      | some b => simpa [mvMatch] using ih
+
+/-! ### the choice among the matches does not see the move -/
+
+theorem typePairs_move {c1 c2 : Cand} (h1 : Good L args' a kw n c1) (h2 : Good L args' a kw n c2) (f : PTy × PTy → Bool) :
+    (((mvCand n c1).mapping.typePairs (mvCand n c2).mapping).all f =
+      (c1.mapping.typePairs c2.mapping).all f) ∧
+    (((mvCand n c1).mapping.typePairs (mvCand n c2).mapping).any f =
+      (c1.mapping.typePairs c2.mapping).any f) := by
+  obtain ⟨p1, q1, e1, l1, _⟩ := h1.last
+  obtain ⟨p2, q2, e2, l2, _⟩ := h2.last
+  have hk := h1.klen.trans h2.klen.symm
+  have hl : p1.length = p2.length := l1.trans l2.symm
+  simp only [mvCand, moveKwG, e1, e2, List.getLast?_concat, moveKw, List.dropLast_concat, Mapping.typePairs,
+    List.zip_append hl, List.zip_append hk, List.map_append, List.all_append, List.any_append, List.zip_cons_cons,
+    List.zip_nil_right, List.map_cons, List.map_nil, List.all_cons, List.all_nil, List.any_cons, List.any_nil,
+    Bool.and_true, Bool.or_false]
+  constructor
+  · cases ((p1.zip p2).map fun p => (p.1.ty, p.2.ty)).all f <;>
+      cases ((c1.mapping.kwd.zip c2.mapping.kwd).map fun p => (p.1.2.ty, p.2.2.ty)).all f <;> simp
+  · cases ((p1.zip p2).map fun p => (p.1.ty, p.2.ty)).any f <;>
+      cases ((c1.mapping.kwd.zip c2.mapping.kwd).map fun p => (p.1.2.ty, p.2.2.ty)).any f <;> simp
+
+theorem moreSpecific_move {c1 c2 : Cand} (h1 : Good L args' a kw n c1) (h2 : Good L args' a kw n c2) :
+    moreSpecific L (mvCand n c1).mapping (mvCand n c2).mapping = moreSpecific L c1.mapping c2.mapping := by
+  unfold moreSpecific
+  rw [(typePairs_move h1 h2 _).1, (typePairs_move h1 h2 _).2]
+
+theorem filter_map_congr {α β : Type} (g : α → β) (q : β → Bool) (r : α → Bool) :
+    ∀ (l : List α), (∀ x ∈ l, q (g x) = r x) → (l.map g).filter q = (l.filter r).map g
+  | [], _ => rfl
+  | x :: l, h => by
+      have ih := filter_map_congr g q r l (fun y hy => h y (by simp [hy]))
+      simp only [List.map_cons, List.filter_cons, h x (by simp), ih]
+      cases r x <;> simp
+
+theorem best_move (ms : List Match) (hg : ∀ m ∈ ms, Good L args' a kw n m.cand) :
+    best L (ms.map (mvMatch n)) = (best L ms).map (mvMatch n) := by
+  unfold best
+  apply filter_map_congr
+  intro m hm
+  rw [List.all_map]
+  apply all_congr'
+  intro o ho
+  simp only [Function.comp_apply, mvMatch]
+  rw [moreSpecific_move (hg m hm) (hg o ho)]
+  rfl
+
+theorem choose_move (ms : List Match) (hg : ∀ m ∈ ms, Good L args' a kw n m.cand) :
+    choose L (ms.map (mvMatch n)) = choose L ms := by
+  unfold choose
+  rw [best_move ms hg]
+  cases best L ms with
+  | nil => rfl
+  | cons w r => cases r <;> rfl
+
+theorem matchesOf_good (E : List Arg) (K : KwArgs) (cs : List Cand) (h : ∀ c ∈ cs, Good L args' a kw n c) :
+    ∀ m ∈ matchesOf L E K cs, Good L args' a kw n m.cand := by
+  intro m hm
+  simp only [matchesOf, List.mem_filterMap] at hm
+  obtain ⟨c, hc, hb⟩ := hm
+  cases hd : getDelegate L c.fd.params E K with
+  | none => simp [hd] at hb
+  | some b =>
+      simp only [hd, Option.map_some, Option.some.injEq] at hb
+      subst hb
+      exact h c hc
+
+theorem decide'_move : ∀ (mls : List (List Match)), (∀ ms ∈ mls, ∀ m ∈ ms, Good L args' a kw n m.cand) →
+    decide' L (mls.map (List.map (mvMatch n))) = decide' L mls
+  | [], _ => rfl
+  | ms :: r, h => by
+      have ih := decide'_move r (fun ms' h' => h ms' (by simp [h']))
+      unfold decide' at ih ⊢
+      simp only [List.map_cons, List.find?_cons]
+      cases hms : ms with
+      | nil => simpa using ih
+      | cons x xs =>
+          simp only [List.map_cons, List.isEmpty_cons, Bool.not_false]
+          have := choose_move (L := L) (args' := args') (a := a) (kw := kw) (n := n) (x :: xs)
+            (fun m hm => h ms (by simp) m (hms ▸ hm))
+          simpa using this
+
+/-! ### the stage function and the final statement -/
+
+theorem headD_noKwargs : ∀ (l : List FDef), (∀ f ∈ l, f.noKwargs = false) → (l.map (·.noKwargs)).headD false = false
+  | [], _ => rfl
+  | f :: _, h => by simpa using h f (by simp)
+
+theorem any_noKwargs (l : List FDef) (h : ∀ f ∈ l, f.noKwargs = false) : l.any (·.noKwargs) = false := by
+  cases hh : l.any (·.noKwargs) with
+  | false => rfl
+  | true =>
+      obtain ⟨f, hf, hk⟩ := List.any_eq_true.1 hh
+      rw [h f hf] at hk; cases hk
+
+theorem mapped_move (ha : a.isNoValue = false) (hkw : ahas n kw = false) :
+    ∀ (vis : List (List FDef)), (∀ f ∈ vis.flatten, MoveOk L args' a n f) →
+      vis.map (mappedOf L args' (kw ++ [(n, a)])) = (vis.map (mappedOf L (args' ++ [a]) kw)).map (List.map (mvCand n)) ∧
+      ∀ cs ∈ vis.map (mappedOf L (args' ++ [a]) kw), ∀ c ∈ cs, Good L args' a kw n c
+  | [], _ => by simp
+  | lv :: r, h => by
+      obtain ⟨ih1, ih2⟩ := mapped_move ha hkw r (fun f hf => h f (by simp [hf]))
+      obtain ⟨h1, h2⟩ := mappedOf_move (L := L) ha hkw lv (fun f hf => h f (by simp [hf]))
+      refine ⟨by simp only [List.map_cons, h1, ih1], ?_⟩
+      intro cs hcs c hc
+      simp only [List.map_cons, List.mem_cons] at hcs
+      rcases hcs with rfl | hcs
+      · exact h2 c hc
+      · exact ih2 cs hcs c hc
+
+theorem matches_move (E : List Arg) (K : KwArgs) (hE : E.length = args'.length) (hK : ahas n K = false) :
+    ∀ (css : List (List Cand)), (∀ cs ∈ css, ∀ c ∈ cs, Good L args' a kw n c) →
+      (css.map (List.map (mvCand n))).map (matchesOf L E (K ++ [(n, a)])) =
+        (css.map (matchesOf L (E ++ [a]) K)).map (List.map (mvMatch n))
+  | [], _ => rfl
+  | cs :: r, h => by
+      simp only [List.map_cons, matchesOf_move E K hE hK cs (h cs (by simp)),
+        matches_move E K hE hK r (fun cs' h' => h cs' (by simp [h']))]
+
+/-- the first stage of the resolution (what is evaluated, which candidates match) in the two spellings -/
+theorem stage_move (vis : List (List FDef)) (c c' : Call)
+    (hnk : ∀ f ∈ vis.flatten, f.noKwargs = false)
+    (htr : translateArgs false (callArgs c) c.kwargs = .ok (args' ++ [a], kw))
+    (htr' : translateArgs false (callArgs c') c'.kwargs = .ok (args', kw ++ [(n, a)]))
+    (hall : ∀ f ∈ vis.flatten, MoveOk L args' a n f) (ha : a.isNoValue = false) (hkw : ahas n kw = false) :
+    match stage L vis c, stage L vis c' with
+    | .error e, .error e' => e = e'
+    | .ok (log, mls), .ok (log', mls') => log' = log ∧ mls' = mls.map (List.map (mvMatch n)) ∧
+        ∀ ms ∈ mls, ∀ m ∈ ms, Good L args' a kw n m.cand
+    | _, _ => False := by
+  obtain ⟨hm1, hm2⟩ := mapped_move (L := L) ha hkw vis hall
+  unfold stage
+  simp only [any_noKwargs _ hnk, Bool.false_and, Bool.false_eq_true, if_false, headD_noKwargs _ hnk, htr, htr', hm1]
+  have hflat : ((vis.map (mappedOf L (args' ++ [a]) kw)).map (List.map (mvCand n))).flatten =
+      (vis.map (mappedOf L (args' ++ [a]) kw)).flatten.map (mvCand n) := by
+    rw [List.map_flatten]
+  rw [hflat]
+  have hgood : ∀ c ∈ (vis.map (mappedOf L (args' ++ [a]) kw)).flatten, Good L args' a kw n c := by
+    intro c hc
+    obtain ⟨cs, hcs, hc'⟩ := List.mem_flatten.1 hc
+    exact hm2 cs hcs c hc'
+  cases hfl : (vis.map (mappedOf L (args' ++ [a]) kw)).flatten with
+  | nil => simp
+  | cons m0 rest =>
+      rw [hfl] at hgood
+      have hg0 := hgood m0 (by simp)
+      have hagree : ((rest.map (mvCand n)).all fun m => decide (m.sig = (mvCand n m0).sig)) =
+          (rest.all fun m => decide (m.sig = m0.sig)) := by
+        rw [List.all_map]
+        apply all_congr'
+        intro m hm
+        have hg := hgood m (by simp [hm])
+        simp only [Function.comp_apply, hg.sig_move, hg0.sig_move]
+        by_cases h : m.sig = m0.sig
+        · simp [h]
+        · have : ¬ mvSig m.sig = mvSig m0.sig := fun e => h ((mvSig_inj hg hg0).1 e)
+          simp [h, this]
+      simp only [List.map_cons, hagree]
+      cases hag : (rest.all fun m => decide (m.sig = m0.sig)) with
+      | false => simp
+      | true =>
+          obtain ⟨lz0, hlz, hlen⟩ := hg0.sig_pos
+          have hE : (evalPos lz0 args').1.length = args'.length := evalPos_args _ _
+          have hK : ahas n (evalKw m0.sig.kw kw).1 = false := by
+            rw [ahas_of_keys n _ kw (evalKw_keys _ _)]; exact hkw
+          simp only [Bool.not_true, Bool.false_eq_true, if_false, hg0.sig_move, mvSig, hlz, List.dropLast_concat,
+            evalPos_append_lazy lz0 args' a hlen, evalKw_append_lazy n m0.sig.kw kw a hg0.sig_kw,
+            matches_move (evalPos lz0 args').1 (evalKw m0.sig.kw kw).1 hE hK _ hm2, true_and]
+          intro ms hms m hm
+          obtain ⟨cs, hcs, rfl⟩ := List.mem_map.1 hms
+          exact matchesOf_good _ _ cs (hm2 cs hcs) m hm
+
+/-- **for a whole family of overloads**: if every visible candidate owns the slot behind `args'` with a
+    lazy parameter that is passed under the name `n` (and takes the argument), the call with the last
+    positional argument moved to the keyword `n` has the same outcome - the same evaluation log, the same
+    winner with the same bound vector, or the same error -/
+theorem lazy_spelling_invariant_family (L : Lattice) (vis : List (List FDef)) (c c' : Call) (args' : List Arg)
+    (a : Arg) (kw : KwArgs) (n : Name)
+    (hnk : ∀ f ∈ vis.flatten, f.noKwargs = false)
+    (htr : translateArgs false (callArgs c) c.kwargs = .ok (args' ++ [a], kw))
+    (htr' : translateArgs false (callArgs c') c'.kwargs = .ok (args', kw ++ [(n, a)]))
+    (hall : ∀ f ∈ vis.flatten, MoveOk L args' a n f) (ha : a.isNoValue = false) (hkw : ahas n kw = false) :
+    chooseOverload L vis c' = chooseOverload L vis c := by
+  rw [chooseOverload_eq, chooseOverload_eq]
+  have h := stage_move (L := L) vis c c' hnk htr htr' hall ha hkw
+  unfold chooseSpec
+  cases h1 : stage L vis c with
+  | error e =>
+      cases h2 : stage L vis c' with
+      | error e' => simp only [h1, h2] at h; rw [h]
+      | ok r => simp [h1, h2] at h
+  | ok r =>
+      obtain ⟨log, mls⟩ := r
+      cases h2 : stage L vis c' with
+      | error e' => simp [h1, h2] at h
+      | ok r' =>
+          obtain ⟨log', mls'⟩ := r'
+          simp only [h1, h2] at h
+          obtain ⟨e1, e2, hg⟩ := h
+          simp only [e1, e2, decide'_move mls hg]
+
+
+namespace Ex
+open C05.Ex
+
+/-- a second overload of the same shape over a more general collection class -/
+def toDictB : FDef := fn 2 [pVal, pKey, { pColl with ty := cls 1 }]
+
+example : MoveOk lat [tick 1, tick 2] (tick 3) pVal.argName toDict ∧ MoveOk lat [tick 1, tick 2] (tick 3) pVal.argName toDictB :=
+  ⟨MoveOk.of_table (i := 0) (by decide) rfl (by decide) rfl (by decide),
+   MoveOk.of_table (i := 0) (by decide) rfl (by decide) rfl (by decide)⟩
+
+/-- two candidates: the more specific one wins in both spellings, with the same log and bound vector -/
+example :
+    chooseOverload lat [[toDictB, toDict]] cKw = chooseOverload lat [[toDictB, toDict]] cPos ∧
+    chooseOverload lat [[toDictB, toDict]] cKwSyntax = chooseOverload lat [[toDictB, toDict]] cPos ∧
+    (chooseOverload lat [[toDictB, toDict]] cPos).log = [1] ∧
+    (chooseOverload lat [[toDictB, toDict]] cPos).res =
+      .ok (0, { pos := [some (.arg (.value dVal)), some (.arg (tick 2)), some (.arg (tick 3))], extra := [], kw := [] }) := by
+  decide
+
+/-- the condition on EVERY candidate cannot be dropped: `P(x: Lambda)`, `Q(x: str)` and a numeric constant -
+    `P` owns the slot with a lazy parameter named `x`, `Q` owns it with an eager one that does not take the
+    constant.  `f(1)` is answered by `P` (`map_args` drops `Q`), `f(x => 1)` is Ambiguous: `map_args` does
+    not look at keywords taken by named parameters, `Q` stays in with another lazy signature
+    (the real resolver does the same: notes/C12.md) -/
+example :
+    (chooseOverload lat [[fn 0 [pos 'x' 0 (.lambda false)], fn 1 [pos 'x' 0 (cls 5)]]]
+      { receiver := none, args := [.const (.obj 6 [] 2) .num none 0], kwargs := [] }).res =
+        .ok (0, { pos := [some (.arg (.const (.obj 6 [] 2) .num none 0))], extra := [], kw := [] }) ∧
+    (chooseOverload lat [[fn 0 [pos 'x' 0 (.lambda false)], fn 1 [pos 'x' 0 (cls 5)]]]
+      { receiver := none, args := [], kwargs := [(['x'], .const (.obj 6 [] 2) .num none 0)] }).res = .error .ambiguous := by
   decide
 
 end Ex
